@@ -31,6 +31,15 @@ class Any:
         self.make = make
 
 
+def _tmpl(spec, ex, fr, k, entry):
+    """the loop contract's template, evaluated on the frame of the code at hand: a contract that cannot even be evaluated there
+    (it reads a local / attribute the function no longer has) leaves the task undecided"""
+    try:
+        return spec.template(ex, fr, k, entry)
+    except (KeyError, AttributeError, TypeError, IndexError) as e:
+        raise Unsupported(f"the loop contract cannot be evaluated on this code shape ({type(e).__name__}: {e})")
+
+
 def _apply(ex, fr, tmpl, node, keep=()):
     for a in tmpl.get("__assume__", []):
         ex.ctx.add_pc(a)
@@ -90,12 +99,12 @@ def run_for(ex, node, fr, seq, spec, ordn):
     n = seq.length
     entry = dict(fr.vars)
     label = f"{fr.funcqual.split('.', 1)[1]}.loop{ordn}"
-    _establish(ex, fr, spec.template(ex, fr, 0, entry), f"{label}.inv-init")
+    _establish(ex, fr, _tmpl(spec, ex, fr, 0, entry), f"{label}.inv-init")
     choice = ctx.choose(2)
     if choice == 0:
         k = ctx.fresh(f"k{ordn}")
         ctx.add_pc(z3.And(k >= 0, k < to_z3(n)))
-        tk = spec.template(ex, fr, k, entry)
+        tk = _tmpl(spec, ex, fr, k, entry)
         _apply(ex, fr, tk, node)
         ex.assign(node.target, seq.get(k, ex), fr)
         try:
@@ -106,9 +115,9 @@ def run_for(ex, node, fr, seq, spec, ordn):
             pass
         for g in tk.get("__ghost__", []):
             g(ex, fr, k)
-        _establish(ex, fr, spec.template(ex, fr, k + 1, entry), f"{label}.inv-preserved")
+        _establish(ex, fr, _tmpl(spec, ex, fr, k + 1, entry), f"{label}.inv-preserved")
         raise PathEnd()
-    _apply(ex, fr, spec.template(ex, fr, n, entry), node, keep=())
+    _apply(ex, fr, _tmpl(spec, ex, fr, n, entry), node, keep=())
     ex.exec_block(node.orelse, fr)
 
 
@@ -116,12 +125,12 @@ def run_while(ex, node, fr, spec, ordn):
     ctx = ex.ctx
     entry = dict(fr.vars)
     label = f"{fr.funcqual.split('.', 1)[1]}.loop{ordn}"
-    _establish(ex, fr, spec.template(ex, fr, 0, entry), f"{label}.inv-init")
+    _establish(ex, fr, _tmpl(spec, ex, fr, 0, entry), f"{label}.inv-init")
     always = isinstance(node.test, ast.Constant) and node.test.value is True
     choice = 0 if always else ctx.choose(2)
     k = ctx.fresh(f"k{ordn}")
     ctx.add_pc(k >= 0)
-    _apply(ex, fr, spec.template(ex, fr, k, entry), node)
+    _apply(ex, fr, _tmpl(spec, ex, fr, k, entry), node)
     c = ex.truth(ex.eval(node.test, fr))
     if choice == 0:
         if not c:
@@ -132,7 +141,7 @@ def run_while(ex, node, fr, spec, ordn):
             return
         except _Continue:
             pass
-        _establish(ex, fr, spec.template(ex, fr, k + 1, entry), f"{label}.inv-preserved")
+        _establish(ex, fr, _tmpl(spec, ex, fr, k + 1, entry), f"{label}.inv-preserved")
         raise PathEnd()
     if c:
         raise PathEnd()
